@@ -56,6 +56,8 @@ Payload(id, uid, k) == [id |-> id, uid |-> uid, k |-> k]
 
 VARIABLES
   nextId,     \* n.surveyID
+  reg,        \* n.surveyRegistry: the set of ids that have a response channel registered (answers are routed by id)
+  heard,      \* heard[id]: responders whose answer for id arrived while survey id was waiting for answers (history)
   st,         \* st[id]: "idle" | "handler" | "collecting" | "exited" | "returned" | "stuck"
   lm,         \* lm[id]: local answer mode chosen at Start
   lpend,      \* lpend[id]: the local callback has not been called yet
@@ -68,10 +70,10 @@ VARIABLES
   out,        \* out[id]: what Survey returned: [res, err] (history)
   step
 
-vars == <<nextId, st, lm, lpend, buf, results, deadline, count, ndel, blocked, out, step>>
-View == <<nextId, st, lm, lpend, buf, results, deadline, count, ndel, blocked, out>>
+vars == <<nextId, reg, heard, st, lm, lpend, buf, results, deadline, count, ndel, blocked, out, step>>
+View == <<nextId, reg, heard, st, lm, lpend, buf, results, deadline, count, ndel, blocked, out>>
 
-Registered(id) == id \in Ids /\ st[id] \in {"handler", "collecting", "exited", "stuck"}
+Registered(id) == id \in reg
 NRes(r) == Cardinality({u \in Uids : r[u] # None})
 
 \* the collector consumes a sequence of payloads until the result map is complete
@@ -82,6 +84,8 @@ Consume(r, q) ==
 
 Init ==
   /\ nextId = 0
+  /\ reg = {}
+  /\ heard = [i \in Ids |-> {}]
   /\ st = [i \in Ids |-> "idle"]
   /\ lm = [i \in Ids |-> "never"]
   /\ lpend = [i \in Ids |-> FALSE]
@@ -100,11 +104,12 @@ Start(m) ==
   /\ nextId < MaxSurveys
   /\ LET id == nextId + 1 IN
      /\ nextId' = id
+     /\ reg' = reg \cup {id}                  \* registry[request id] = channel
      /\ st' = [st EXCEPT ![id] = "handler"]
      /\ lm' = [lm EXCEPT ![id] = m]
      /\ lpend' = [lpend EXCEPT ![id] = (m # "never")]
      /\ step' = [act |-> "Start", id |-> id, mode |-> m, cap |-> NumNodes]
-  /\ UNCHANGED <<buf, results, deadline, count, ndel, blocked, out>>
+  /\ UNCHANGED <<heard, buf, results, deadline, count, ndel, blocked, out>>
 
 \* a send into the response channel by the local callback
 \* returns [buf, ok, blocks]
@@ -128,7 +133,7 @@ HandlerDone(id) ==
             /\ lpend' = [lpend EXCEPT ![id] = IF lm[id] = "sync" THEN FALSE ELSE lpend[id]]
             /\ st' = [st EXCEPT ![id] = IF NRes(c.r) = NumNodes THEN "exited" ELSE "collecting"]
             /\ step' = [act |-> "HandlerDone", id |-> id, stuck |-> FALSE, exits |-> NRes(c.r) = NumNodes]
-  /\ UNCHANGED <<nextId, lm, deadline, count, ndel, blocked, out>>
+  /\ UNCHANGED <<nextId, reg, heard, lm, deadline, count, ndel, blocked, out>>
 
 \* the environment delivers a survey response to Node.HandleControl -> handleSurveyResponse (never blocks)
 Deliver(id, uid) ==
@@ -138,6 +143,7 @@ Deliver(id, uid) ==
   /\ Causal => ~(id \in Ids /\ st[id] = "handler")
   /\ ndel' = ndel + 1
   /\ count' = [count EXCEPT ![id][uid] = @ + 1]
+  /\ heard' = IF id \in Ids /\ st[id] = "collecting" THEN [heard EXCEPT ![id] = @ \cup {uid}] ELSE heard
   /\ LET pl == Payload(id, uid, count[id][uid] + 1) IN
      IF ~Registered(id)
        THEN \* no such survey (never issued, not yet issued, or finished): ignored
@@ -155,7 +161,7 @@ Deliver(id, uid) ==
             /\ UNCHANGED <<st, results>>
             /\ step' = [act |-> "Deliver", id |-> id, uid |-> uid, k |-> pl.k,
                         fate |-> IF Len(buf[id]) < NumNodes THEN "buffered" ELSE "dropped", exits |-> FALSE]
-  /\ UNCHANGED <<nextId, lm, lpend, deadline, blocked, out>>
+  /\ UNCHANGED <<nextId, reg, lm, lpend, deadline, blocked, out>>
 
 \* ctx.Done() fires while the collector waits
 Deadline(id) ==
@@ -163,15 +169,16 @@ Deadline(id) ==
   /\ deadline' = [deadline EXCEPT ![id] = TRUE]
   /\ st' = [st EXCEPT ![id] = "exited"]
   /\ step' = [act |-> "Deadline", id |-> id]
-  /\ UNCHANGED <<nextId, lm, lpend, buf, results, count, ndel, blocked, out>>
+  /\ UNCHANGED <<nextId, reg, heard, lm, lpend, buf, results, count, ndel, blocked, out>>
 
 \* wg.Wait() returned, ctx.Err() evaluated; now the deferred registry delete runs and Survey returns
 Return(id) ==
   /\ id \in Ids /\ st[id] = "exited"
   /\ st' = [st EXCEPT ![id] = "returned"]
+  /\ reg' = reg \ {id}                       \* deferred delete(registry, THIS survey's request id)
   /\ out' = [out EXCEPT ![id] = [res |-> results[id], err |-> deadline[id], done |-> TRUE]]
   /\ step' = [act |-> "Return", id |-> id, res |-> results[id], err |-> deadline[id]]
-  /\ UNCHANGED <<nextId, lm, lpend, buf, results, deadline, count, ndel, blocked>>
+  /\ UNCHANGED <<nextId, heard, lm, lpend, buf, results, deadline, count, ndel, blocked>>
 
 \* the application calls the local callback later, from its own goroutine ("async" mode)
 LocalReply(id) ==
@@ -190,7 +197,7 @@ LocalReply(id) ==
             /\ step' = [act |-> "LocalReply", id |-> id,
                         fate |-> IF p.blocks THEN "blocks" ELSE IF Len(buf[id]) < NumNodes THEN "buffered" ELSE "dropped",
                         exits |-> FALSE]
-  /\ UNCHANGED <<nextId, lm, deadline, count, ndel, out>>
+  /\ UNCHANGED <<nextId, reg, heard, lm, deadline, count, ndel, out>>
 
 Next ==
   \/ \E m \in LocalModes : Start(m)
@@ -219,6 +226,14 @@ ReturnedIsCollected ==
   \A i \in Ids : out[i].done => /\ \A u \in Uids : out[i].res[u] # None => out[i].res[u].id = i /\ out[i].res[u].uid = u
                                 /\ Cardinality({u \in Uids : out[i].res[u] # None}) <= NumNodes
 
+\* per survey: every node whose answer arrived while the survey was waiting (before completion / deadline) is in what
+\* the survey returns - whatever other surveys did meanwhile
+HeardAreReturned == \A i \in Ids : out[i].done => \A u \in heard[i] : out[i].res[u] # None /\ out[i].res[u].id = i
+\* the registry holds exactly the surveys in flight (each survey registers and unregisters ITS OWN id), hence it is
+\* empty once every survey has returned
+RegistryIsInFlight == reg = {i \in Ids : st[i] \in {"handler", "collecting", "exited", "stuck"}}
+RegistryEmptyAfterAll == (\A i \in Ids : st[i] \in {"idle", "returned"}) => reg = {}
+
 \* C41 (2): it keeps waiting only while answers are missing and the deadline has not passed, and it ends for one of
 \* the two reasons
 WaitsOnlyWhileIncomplete == \A i \in Ids : st[i] = "collecting" => NRes(results[i]) < NumNodes /\ ~deadline[i]
@@ -233,6 +248,8 @@ NoBlockedCallback == blocked = {}
 \* witness generators (survey_wit.cfg): "properties" whose counterexamples are the schedules every run must replay
 WitLateLocalDrop == [][~(step'.act = "LocalReply" /\ step'.fate = "dropped")]_vars
 WitLateRemoteDrop == [][~(step'.act = "Deliver" /\ step'.fate = "dropped")]_vars
+\* two overlapping surveys: the older one has returned, then the newer one gets its last answer
+WitOverlap == [][~(step'.act = "Deliver" /\ step'.exits /\ \E j \in Ids : j < step'.id /\ st[j] = "returned")]_vars
 
 \* progress within the model: a survey that started can always be brought to its return
 CanFinish == \A i \in Ids : st[i] \in {"handler", "collecting", "exited"} => ENABLED (HandlerDone(i) \/ Deadline(i) \/ Return(i))
